@@ -254,6 +254,19 @@ var c20Helpers = []c20Helper{
 		return ""
 	}},
 	{"ItemCollection.Contains/Append/Remove", []string{"top"}, func(it ap.Item) string {
+		// lists that already hold nil entries (several, one of them last): Remove of a nil item walks over all of them
+		for _, pre := range []ap.ItemCollection{
+			{(*ap.Object)(nil), c20Real(), (*ap.Link)(nil)},
+			{c20Real(), nil, ap.IRI("https://example.com/y"), (*ap.Actor)(nil)},
+			{nil, nil},
+			{it, c20Real(), it},
+		} {
+			pl := append(ap.ItemCollection{}, pre...)
+			_ = pl.Contains(it)
+			pl.Remove(it)
+			_ = pl.Append(it)
+			pl.Remove(it)
+		}
 		l := ap.ItemCollection{c20Real(), ap.IRI("https://example.com/x")}
 		_ = l.Contains(it)
 		_ = l.Append(it)
